@@ -285,7 +285,10 @@ def read_structure() -> dict:
                         if isinstance(x, ast.Attribute) and isinstance(x.value, ast.Name) and x.value.id == "self":
                             state.add(x.attr)
             raises.append((fn.name, nr))
+            out.setdefault("digests", []).append((cls.name + "." + fn.name, T.ast_digest(fn)))
         out["classes"].append({"name": cls.name, "methods": methods, "state": sorted(state), "raises": raises})
+    pse = T.find_function(mod, "parse_symbolic_expression")
+    out["digests"].append(("parse_symbolic_expression", T.ast_digest(pse)))
     return out
 
 
@@ -326,6 +329,9 @@ def generate(ck) -> bool:
             text += f"(* class {c['name']}: methods {c['methods']}, assigned self.* {c['state']}, raises {c['raises']} *)\n"
             rows.append("(" + ", ".join([cstr(c["name"]), sl(c["methods"]), sl(c["state"]),
                                          clist(cpair(cstr(m), cN(k)) for m, k in c["raises"] if k)]) + ")")
+        text += "(* statement-level pin: digest of the normalised AST (no positions, no docstring) of every method *)\n"
+        text += "Definition src_method_digests : list (list N * list N) :=\n  " + \
+            clist("\n   " + cpair(cstr(k), cstr(v)) + f" (* {k} {v} *)" for k, v in st["digests"]) + ".\n"
         text += ("Definition src_classes : list (list N * list (list N) * list (list N) * list (list N * N)) :=\n  "
                  + clist(rows) + ".\n")
     except (T.Unsupported, SyntaxError, OSError) as e:
@@ -1793,6 +1799,228 @@ def flat_tree_cases(rng) -> list[dict]:
             {"tree": frac, "bindings": {"N": 5, "M": 3}, "partial": {"N": 5}, "simplify": False}]
 
 
+# ---- mirror of Model.pm / render (checked against the model inside Coq on every generated tree)
+_FN1_NAME = {"FFloor": "floor", "FCeil": "ceiling", "FAbs": "Abs", "FSign": "sign", "FSqrt": "sqrt"}
+_CALL = {"BMod": "Mod", "BMax": "Max", "BMin": "Min"}
+_INFIX = {"BAdd": ("+", 0, 0, 1), "BSub": ("-", 0, 0, 1), "BMul": ("*", 1, 1, 2), "BDiv": ("/", 1, 1, 2),
+          "BPow": ("**", 3, 4, 2)}
+
+
+def m_level(m) -> int:
+    k = m[0]
+    if k == "ESym":
+        return 4
+    if k == "EInt":
+        return 2 if m[1] < 0 else 4
+    if k == "ENeg":
+        return 2
+    if k == "EUn":
+        return 1 if (m[1] == "FFloor" and m[2][0] == "EBin" and m[2][1] == "BDiv") else 4
+    return _INFIX[m[1]][1] if m[1] in _INFIX else 4
+
+
+def m_pm(l: int, m) -> list[str]:
+    k = m[0]
+    if k == "ESym":
+        body = [m[1]]
+    elif k == "EInt":
+        body = ["-", str(-m[1])] if m[1] < 0 else [str(m[1])]
+    elif k == "ENeg":
+        body = ["-"] + m_pm(2, m[1])
+    elif k == "EUn":
+        if m_level(m) == 1:
+            body = m_pm(1, m[2][2]) + ["//"] + m_pm(2, m[2][3])
+        else:
+            body = [_FN1_NAME[m[1]], "("] + m_pm(0, m[2]) + [")"]
+    elif m[1] in _INFIX:
+        op, _, la, lb = _INFIX[m[1]]
+        body = m_pm(la, m[2]) + [op] + m_pm(lb, m[3])
+    else:
+        body = [_CALL[m[1]], "("] + m_pm(0, m[2]) + [","] + m_pm(0, m[3]) + [")"]
+    return ["("] + body + [")"] if m_level(m) < l else body
+
+
+def m_prmin(m) -> str:
+    return "".join(t + " " for t in m_pm(0, m))
+
+
+def m_norm(m):
+    k = m[0]
+    if k == "ESym":
+        return m
+    if k == "EInt":
+        return m_neg(m_int(-m[1])) if m[1] < 0 else m
+    if k == "ENeg":
+        return m_neg(m_norm(m[1]))
+    if k == "EUn":
+        return m_un(m[1], m_norm(m[2]))
+    return m_bin(m[1], m_norm(m[2]), m_norm(m[3]))
+
+
+def gen_model_tree(rng, d: int, names: list[str]):
+    """Random MODEL trees over the whole operator set (nested powers, negations of powers, negative literals,
+    right-nested - / // %, calls), for the print -> parse identity."""
+    if d <= 0 or rng.random() < 0.15:
+        return m_sym(rng.choice(names)) if rng.random() < 0.6 else m_int(rng.choice([0, 1, 2, 3, 5, 7, 12, -1, -2, -7]))
+    r = rng.random()
+    if r < 0.15:
+        return m_neg(gen_model_tree(rng, d - 1, names))
+    if r < 0.30:
+        f = rng.choice(["FFloor", "FFloor", "FCeil", "FAbs", "FSign", "FSqrt"])
+        sub = gen_model_tree(rng, d - 1, names)
+        if f == "FFloor" and rng.random() < 0.7:
+            sub = m_bin("BDiv", gen_model_tree(rng, d - 1, names), gen_model_tree(rng, d - 1, names))
+        return m_un(f, sub)
+    o = rng.choice(["BAdd", "BSub", "BSub", "BMul", "BDiv", "BDiv", "BMod", "BPow", "BPow", "BMax", "BMin"])
+    return m_bin(o, gen_model_tree(rng, d - 1, names), gen_model_tree(rng, d - 1, names))
+
+
+def check_print_min(ck, report) -> None:
+    """Model function pm (minimal parentheses): Coq checks that the Python mirror writes the same text as the model
+    and that the REAL parser (through the stub) reads that text back to norm e; real SymPy evaluates the text and
+    Coq compares with eval e (small-power trees only)."""
+    rng = ck.rng
+    n = 200 if not ck.thorough else 5000
+    rows = []
+    for i in range(n):
+        names = rng.sample(["N", "M", "K", "a.b", "seq_len", "_d"], rng.choice([1, 2, 3]))
+        m = gen_model_tree(rng, rng.choice([1, 2, 3, 3, 4]), names)
+        text = m_prmin(m)
+        r, _ = stub_parse(text)
+        b = {s_: rng.choice([1, 2, 3, 4, 5, 7, 9]) for s_ in m_syms(m)}
+        o = None
+        if r[0] == "ok" and _small_pow(m, b):
+            try:
+                exact_m(m, b)
+                o = observe_string(text, b)
+                if o.get("parse") != "ok" or o.get("value") == ["timeout"]:
+                    o = None
+                elif o["value"] != qval(exact_m(m, b)):
+                    key = _string_known(ck, {"text": text, "bindings": b, "_stub": r}, {"observed": o})
+                    if key:                      # SymPy's own value is wrong here (recorded finding): not the model
+                        ck.hist("known_finding_hits", key)
+                        o = None
+            except (Undefined, OverflowError):
+                o = None
+        rows.append((m, text, r, b, o))
+        ck.count()
+        ck.hist("print_min_parenthesised_groups", str(min(text.count("("), 6)) + ("+" if text.count("(") >= 6 else ""))
+        if text.count("(") and len(text) > 12:
+            ck.nontriv(("prmin", text))
+    items = []
+    for m, text, r, b, o in rows:
+        exp = f"(Some {cexpr(r[1])})" if r[0] == "ok" and _tree_ok(r[1]) else "None"
+        items.append("(" + ", ".join([cexpr(m), cstr(text), exp, cenv(b), _obs_q(o["value"]) if o else "None"]) + ")")
+    text_v = CASE_HEADER + (
+        "Definition cases : list (expr * list N * option expr * env * option (option Q)) :=\n  "
+        + clist(items).replace("; ((E", ";\n  ((E") + ".\n"
+        "Definition agree (c : expr * list N * option expr * env * option (option Q)) : bool :=\n"
+        "  let '(e, txt, impl, b, v) := c in\n"
+        "  list_eqb N.eqb (prmin e) txt && oexpr_eqb impl (Some (norm e)) && oexpr_eqb (parse_dim txt) (Some (norm e))\n"
+        "  && match v, eval b e with Some w, Some q => oq_eqb w (Some q) | _, _ => true end.\n"
+        "Eval vm_compute in (failing agree cases).\n")
+    try:
+        bad = ck.coq_failing(text_v, "prmin")
+    except RuntimeError as e:
+        ck.broken("correspondence:case-file", str(e))
+        return
+    ck.coverage["print_min_cases_in_coq"] = len(rows)
+    for i in bad[:5]:
+        m, text, r, b, o = rows[i]
+        ck.broken("correspondence:print-min", json.dumps({"tree": m, "text": text, "implementation_parse": r,
+                                                          "bindings": b, "implementation_value": o}, default=str))
+        # concrete input for the property oracle: the text is a string of the documented grammar whose standard
+        # meaning is the exact value of the tree
+        try:
+            want = qval(exact_m(m, b))
+        except (Undefined, OverflowError):
+            continue
+        o2 = observe_string(text, b)
+        got = o2.get("value") if o2.get("parse") == "ok" else ["raise", o2.get("exc")]
+        if got != want and got != ["timeout"]:
+            it = {"text": text, "bindings": b, "_stub": r}
+            fail = {"text": text, "bindings": b, "expected": want, "observed": o2,
+                    "what": "a minimally parenthesised string of the documented grammar does not get the standard meaning"}
+            if not _string_known(ck, it, fail):
+                report(it, fail)
+
+
+INT_OPS = ("floordiv", "mod", "ceildiv", "truncdiv", "pow")
+
+
+def int_semantics_rows(rng, n_random: int) -> list[dict]:
+    """x op y for integer x, y of EVERY sign combination, where x = N - c1 and y = M - c2 are symbolic
+    differences (so SymPy sees symbols, the binding decides the signs).  The implementation's value is compared
+    INSIDE COQ with the right-hand sides of C16_eval_integer / C16_eval_integer_pow: Z.div, Z.modulo (sign of the
+    divisor), -((-x)/y), Z.quot, Z.pow — i.e. with Python's integer semantics, not with the model's eval."""
+    rows = []
+    pairs = [(x, y) for x in (-7, -6, -1, 0, 1, 5, 7, 12) for y in (-4, -3, -1, 1, 2, 3, 7)]
+    for _ in range(n_random):
+        pairs.append((rng.randrange(-60, 61), rng.choice([v for v in range(-12, 13) if v])))
+    for i, (x, y) in enumerate(pairs):
+        for op in INT_OPS:
+            if op == "pow":
+                y_ = abs(y) % 4
+                n, m = rng.choice([1, 3, 9]), rng.choice([1, 2, 6])
+                t = ["pow", ["sub", ["sym", "N"], ["int", n - x]], ["int", y_]]
+                rows.append({"op": op, "x": x, "y": y_, "tree": t, "bindings": {"N": n}})
+                continue
+            n, m = rng.choice([1, 2, 5, 8]), rng.choice([1, 3, 4, 9])
+            X, Y = ["sub", ["sym", "N"], ["int", n - x]], ["sub", ["sym", "M"], ["int", m - y]]
+            if i % 3 == 1:
+                Y = ["int", y]                       # dim op int
+            t = {"floordiv": ["floordiv", X, Y], "mod": ["mod", X, Y], "ceildiv": ["ceil", ["div", X, Y]],
+                 "truncdiv": ["trunc", ["div", X, Y]]}[op]
+            rows.append({"op": op, "x": x, "y": y, "tree": t,
+                         "bindings": {k_: v for k_, v in (("N", n), ("M", m)) if k_ in syms_of(t)}})
+    return rows
+
+
+def check_int_semantics(ck, report) -> None:
+    rng = ck.rng
+    rows = int_semantics_rows(rng, 40 if not ck.thorough else 1500)
+    items = []
+    for r in rows:
+        case = {"tree": r["tree"], "bindings": r["bindings"], "partial": {}}
+        try:
+            d = build(case["tree"])
+            v1 = _try(lambda: val(d.evaluate(case["bindings"])))
+            v2 = _try(lambda: val(__import__("onnx_ir").SymbolicDim(d.value).evaluate(case["bindings"])))
+        except Exception as e:  # noqa: BLE001
+            v1 = v2 = ["raise", type(e).__name__]
+        r["observed"], r["observed_text"] = v1, v2
+        ck.count()
+        ck.hist("int_semantics_ops", r["op"] + (":x<0" if r["x"] < 0 else ":x>=0") + (":y<0" if r["y"] < 0 else ":y>=0"))
+        ck.nontriv(("intsem", r["op"], r["x"], r["y"]))
+
+        def oz(o):
+            return f"(Some {cZ(o[1])})" if o[0] == "int" else "None"
+        items.append("(" + ", ".join([cN(INT_OPS.index(r["op"])), cZ(r["x"]), cZ(r["y"]), oz(v1), oz(v2)]) + ")")
+    text = ("From Coq Require Import ZArith NArith List Bool.\nFrom IRV Require Import Base.Exn.\nImport ListNotations.\n"
+            "Open Scope Z_scope.\n"
+            "Definition cases : list (N * Z * Z * option Z * option Z) :=\n  " + clist(items).replace("; (", ";\n  (") + ".\n"
+            "Definition python_int (op : N) (x y : Z) : Z :=\n"
+            "  match op with 0%N => x / y | 1%N => x mod y | 2%N => - ((- x) / y) | 3%N => Z.quot x y | _ => x ^ y end.\n"
+            "Definition agree (c : N * Z * Z * option Z * option Z) : bool :=\n"
+            "  let '(op, x, y, o1, o2) := c in\n"
+            "  option_eqb Z.eqb o1 (Some (python_int op x y)) && option_eqb Z.eqb o2 (Some (python_int op x y)).\n"
+            "Eval vm_compute in (failing agree cases).\n")
+    try:
+        bad = ck.coq_failing(text, "intsem")
+    except RuntimeError as e:
+        ck.broken("correspondence:case-file", str(e))
+        return
+    ck.coverage["int_semantics_cases_in_coq"] = len(rows)
+    for i in bad[:5]:
+        r = rows[i]
+        ck.broken("correspondence:python-int-semantics", json.dumps(r, default=str))
+        case = {"tree": r["tree"], "bindings": r["bindings"], "partial": {}}
+        obs = observe(case)
+        b_ = oracle(case, obs)
+        if b_:
+            report(case, obs, b_)
+
+
 def gen_string_items(rng, n: int) -> list[dict]:
     items = []
     for i in range(n):
@@ -1843,8 +2071,8 @@ def run(ck) -> None:
                 for s in HAND_STRINGS]
     t_cases = [c for c in corpus if c.get("kind") == "tree"]
     # 2. generated
-    n_str = 500 if not ck.thorough else 12000
-    n_tree = 260 if not ck.thorough else 6000
+    n_str = 400 if not ck.thorough else 12000
+    n_tree = 220 if not ck.thorough else 6000
     fl = flat_string_items(rng, ck.thorough)
     ck.coverage["large_flat_strings"] = len(fl)
     s_items += fl
@@ -1853,12 +2081,16 @@ def run(ck) -> None:
     ck.coverage["neutral_constant_grid_cases"] = len(grid)
     t_cases += grid
     cg, ug = chain_grid(), usym_grid()
+    if not ck.thorough:
+        cg = [c for i, c in enumerate(cg) if i % 2 == 0 or ops_of(c["tree"]) <= {"floordiv", "mul", "sub"}]
     ck.coverage["rounding_chain_grid_cases"] = len(cg)
     ck.coverage["caller_sympy_symbol_grid_cases"] = len(ug)
     t_cases += cg + ug + flat_tree_cases(rng)
     t_cases += [gen_case(rng, ck.thorough) for _ in range(n_tree)]
     check_strings(ck, s_items, report_string)
     check_trees(ck, t_cases, report_tree)
+    check_int_semantics(ck, report_tree)
+    check_print_min(ck, report_string)
     # 3. known findings, then violations found by the oracles
     replay_known(ck)
     seen = set()
